@@ -16,7 +16,9 @@ Arguments Panic {A}.
 Definition bind {A B} (r : res A) (f : A -> res B) : res B :=
   match r with Ok a => f a | Err e => Err e | Panic => Panic end.
 Notation "'do' x <- r ; k" := (bind r (fun x => k))
-  (at level 200, x pattern, r at level 100, k at level 200, right associativity).
+  (at level 200, x name, r at level 100, k at level 200, right associativity).
+Notation "'do' ' p <- r ; k" := (bind r (fun x => match x with p => k end))
+  (at level 200, p pattern, r at level 100, k at level 200, right associativity).
 
 Definition is_panic {A} (r : res A) : bool := match r with Panic => true | _ => false end.
 Definition is_ok {A} (r : res A) : bool := match r with Ok _ => true | _ => false end.
@@ -39,6 +41,7 @@ Definition bytes_ok (l : list Z) : bool := forallb is_byte l.
 
 (* ---- lists ------------------------------------------------------------ *)
 Definition len {A} (l : list A) : Z := Z.of_nat (length l).
+Definition is_nil {A} (l : list A) : bool := match l with [] => true | _ => false end.
 Definition take {A} (n : Z) (l : list A) : list A := firstn (Z.to_nat n) l.
 Definition drop {A} (n : Z) (l : list A) : list A := skipn (Z.to_nat n) l.
 
